@@ -132,6 +132,15 @@ class THet(Ty):
         return "(" + " × ".join([TList(self.elem).lean()] + [t.lean() for t in self.tails]) + ")"
 
 
+class TMaybe(Ty):
+    """a local variable that is assigned on some paths only (reading it elsewhere is UnboundLocalError)"""
+    def __init__(self, elem):
+        self.elem = elem
+
+    def lean(self):
+        return "(Option {})".format(self.elem.lean())
+
+
 class TVar(Ty):
     """unification variable (element type of `[]` before the first append)"""
     count = 0
@@ -170,6 +179,8 @@ def resolve(t):
         return TDict(resolve(t.k), resolve(t.v))
     if isinstance(t, THet):
         return THet(resolve(t.elem), [resolve(x) for x in t.tails])
+    if isinstance(t, TMaybe):
+        return TMaybe(resolve(t.elem))
     return t
 
 
@@ -208,6 +219,11 @@ def join(a, b):
         return a if unify(a, b) else None
     if a == b:
         return a
+    if isinstance(a, TMaybe) or isinstance(b, TMaybe):
+        ia = a.elem if isinstance(a, TMaybe) else a
+        ib = b.elem if isinstance(b, TMaybe) else b
+        j = join(ia, ib)
+        return TMaybe(j) if j is not None else None
     if isinstance(a, TNone):
         return b if isinstance(b, TOpt) else TOpt(b)
     if isinstance(b, TNone):
@@ -248,6 +264,12 @@ def coerce(code, frm, to):
     if frm == to or isinstance(frm, TVar) or isinstance(to, TVar):
         unify(frm, to)
         return code
+    if isinstance(to, TMaybe):
+        if isinstance(frm, TMaybe):
+            if frm.elem == to.elem:
+                return code
+            return "(({}).map (fun z => {}))".format(code, coerce("z", frm.elem, to.elem))
+        return "(some {})".format(coerce(code, frm, to.elem))
     if isinstance(to, TOpt):
         if isinstance(frm, TNone):
             return "(none : {})".format(to.lean())
